@@ -115,11 +115,39 @@ def check(cx):
                    "dealloc_page writes/caches the page before (or without) converting it to a free page: the disk keeps the old "
                    "live image, whose pointer fields are then read as the free-list link (cyclic or dangling free list)")
 
+    # ---- C11.3b nothing that can evict runs between ensure_cached(id) and cache.remove(id) in dealloc_page ----------------
+    r3b = cx.rule("C11.3b", "MPR: in Pager::dealloc_page no call that can evict a frame (anything reaching Pager::cache_frame / PageCache::evict) "
+                  "lies on a path between ensure_cached(id) and cache.remove(id): with a full small cache the frame just loaded is the "
+                  "one evicted, remove() then finds nothing and the conversion to a free page is skipped silently", floor=1)
+    fd_ = cx.guard(r3b, "dealloc_page", p.fn, DEALLOC)
+    if fd_:
+        ens = [c for c in fd_.calls() if c.callee.startswith(K.PAGER + "::ensure_cached")]
+        rem = [c for c in fd_.calls() if c.callee.endswith("PageCache::remove")]
+        EV = {x for x in p.fns if x.endswith("PageCache::evict") or x == K.PAGER + "::cache_frame"}
+        if not ens or not rem:
+            cx.bad(r3b, "window", fd_.where(), "dealloc_page no longer has the ensure_cached / cache.remove pair")
+        else:
+            between = set()
+            for e in ens:
+                if e.term["to"] is None:
+                    continue
+                fw = fd_.reachable(e.term["to"], blocked={r_.bb for r_ in rem})
+                for r_ in rem:
+                    # blocks that can still reach the remove
+                    between |= {b for b in fw if r_.bb in fd_.reachable(b)}
+            evicting = sorted({c.callee.rsplit("::", 1)[-1] for c in fd_.calls() if c.bb in between and c not in ens
+                               and (c.callee in EV or (p.reach_forward([c.callee]) & EV))})
+            cx.verdict(all(any(fd_.dominates(e.bb, r_.bb) for e in ens) for r_ in rem) and not evicting, r3b, "window", fd_.where(),
+                       "ensure_cached dominates remove and nothing in between can evict",
+                       "between ensure_cached(id) and cache.remove(id) dealloc_page calls %s, which can evict the frame it has just loaded: "
+                       "the page is then put on the free list without being converted, and its old pointer fields are later read as the "
+                       "free-list link" % (evicting or "nothing, but ensure_cached does not dominate remove"))
+
     r4 = cx.rule("C11.4", "MPT: in Btree::{update_cell, remove, remove_tuple} the cell taken out of the page flows into "
                  "CellDeallocator::deallocate_cell on every success path after it was taken; Btree::dealloc frees overflow "
                  "chains; Catalog::remove_relation frees the tree; a drained child page is freed; nothing reachable from "
                  "Btree::balance* frees a cell's overflow chain (divider cells alias leaf chains); update_cell/remove/remove_tuple rebalance the "
-                 "page of the position they changed", floor=10)
+                 "page of the position they changed; the overflow-chain walk frees every page it read; a root page allocated by CREATE TABLE is stored", floor=12)
     dc = "tree::cell_ops::CellDeallocator::deallocate_cell"
 
     def takes(h):
@@ -194,6 +222,32 @@ def check(cx):
                    "every success path passes the loop that returns the visited pages to the pager",
                    "Btree::dealloc has a success path that frees nothing (e.g. an early return for an empty tree): the root page of a "
                    "dropped empty table is neither in a tree nor on the free list")
+    # the overflow-chain walk frees every page whose link it has read, including the last one (whose link is None)
+    h = cx.guard(r4, "dealloc_overflow_chain", p.fn, BT + "dealloc_overflow_chain")
+    if h:
+        WP = {x for x in p.fns if x.startswith(K.PAGER + "::with_page")}
+        R_ = p.must_reach_set(WP)
+        D_ = p.must_reach_set({DEALLOC})
+        reads = [c for c in h.calls() if any(t in R_ for t in p.targets(c)) and not any(t in D_ for t in p.targets(c))]
+        good = bool(reads)
+        for c in reads:
+            if c.term["to"] is not None:
+                good = good and p.all_success_paths_call(h, D_, c.term["to"])
+        cx.verdict(good, r4, "dealloc_overflow_chain:frees-what-it-read", h.where(), "%d link read(s), each followed by dealloc_page on every success path" % len(reads),
+                   "Btree::dealloc_overflow_chain can read a page's link and return without freeing that page (the walk stops when the link "
+                   "is None): the last page of every overflow chain of a dropped table is neither in a tree nor on the free list")
+    # a page taken for a new table ends up in a stored relation
+    h = cx.guard(r4, "execute_create_table", p.fn, "runtime::ddl::DdlExecutor::execute_create_table")
+    if h:
+        allocs = [c for c in h.calls() if c.callee.startswith(ALLOC)]
+        S_ = p.must_reach_set({"schema::catalog::Catalog::store_relation"})
+        good = bool(allocs)
+        for c in allocs:
+            if c.term["to"] is not None:
+                good = good and p.all_success_paths_call(h, S_, c.term["to"])
+        cx.verdict(good, r4, "create_table:allocated-root-is-stored", h.where(), "every success path after allocate_page stores the relation",
+                   "execute_create_table can return successfully (IF NOT EXISTS on an existing table) after taking a page that no relation "
+                   "refers to: one page per such statement is owned by nobody")
     h = cx.guard(r4, "remove_relation", p.fn, "schema::catalog::Catalog::remove_relation")
     if h:
         cx.verdict(p.reaches(h.id, BT + "dealloc"), r4, "remove_relation:frees-tree", h.where(), "reaches Btree::dealloc",
